@@ -333,6 +333,9 @@ impl MockHost {
         });
         MockHost { port, st }
     }
+    pub fn opened(&self) -> usize {
+        self.st.0.lock().unwrap().opened
+    }
     pub fn push_response(&self, r: MockResp) {
         self.st.0.lock().unwrap().queue.push_back(r);
     }
@@ -345,9 +348,9 @@ impl MockHost {
         (b, std::mem::take(&mut g.reqs))
     }
     /// wait until every upstream connection ever opened has been closed by the proxy side (all bytes of them are counted then)
-    pub fn wait_all_closed(&self, at_least_opened: usize) -> bool {
+    pub fn wait_all_closed(&self, at_least_opened: usize, timeout: Duration) -> bool {
         let g = self.st.0.lock().unwrap();
-        let (g, t) = self.st.1.wait_timeout_while(g, Duration::from_secs(10), |s| s.opened < at_least_opened || s.closed < s.opened).unwrap();
+        let (g, t) = self.st.1.wait_timeout_while(g, timeout, |s| s.opened < at_least_opened || s.closed < s.opened).unwrap();
         drop(g);
         !t.timed_out()
     }
@@ -586,6 +589,7 @@ pub struct Harness {
     front_addr: SocketAddr,
     next_id: std::cell::Cell<u128>,
     upstreams: std::cell::Cell<usize>,
+    slow: std::cell::Cell<bool>,
 }
 
 impl Harness {
@@ -598,7 +602,7 @@ impl Harness {
         let (shared, front) = rt.block_on(async { (SharedState::start_all(), tokio::net::TcpListener::bind("127.0.0.1:0").await.expect("front bind")) });
         let ps = ProxyServer::new(crate::common::constants::PROXY_AGENT_PORT, &shared);
         let front_addr = front.local_addr().unwrap();
-        Harness { rt, shared, ps, host: MockHost::start(), front, front_addr, next_id: std::cell::Cell::new(1), upstreams: std::cell::Cell::new(0) }
+        Harness { rt, shared, ps, host: MockHost::start(), front, front_addr, next_id: std::cell::Cell::new(1), upstreams: std::cell::Cell::new(0), slow: std::cell::Cell::new(false) }
     }
 
     /// the same rule set for the three endpoints, through the real setters
@@ -668,8 +672,13 @@ impl Harness {
     }
 
     pub fn settle(&self) -> (usize, Vec<RecReq>) {
-        if !self.host.wait_all_closed(self.upstreams.get()) {
-            println!("VXW-NOTE upstream connections were not released within 10 s");
+        let timeout = if self.slow.get() { Duration::from_millis(300) } else { Duration::from_secs(10) };
+        if !self.host.wait_all_closed(self.upstreams.get(), timeout) {
+            if !self.slow.get() {
+                println!("VXW-NOTE upstream connections were not opened/released within 10 s (waiting only 300 ms from now on)");
+            }
+            self.slow.set(true);
+            self.upstreams.set(self.host.opened());
         }
         self.host.take()
     }
@@ -690,6 +699,180 @@ impl Harness {
         conn.client.send(wire);
         let r = conn.client.recv(head_request);
         let (b, reqs) = self.finish(conn);
+        (r, b, reqs)
+    }
+}
+
+// ------------------------------------------------------------------------------------------------ the real listener path
+// Where the kernel lets the test process create a BPF hash map, the witnesses also go through the REAL
+// ProxyServer::handle_new_tcp_connection (real limit wiring, real TcpConnectionContext::new, real redirector::lookup_audit /
+// remove_audit, real Claims::from_audit_entry): a map called audit_map with the layout of linux-ebpf/ebpf_cgroup.c is created
+// from a minimal ELF object through aya, handed to the real RedirectorSharedState, and filled with the records the cgroup
+// hook would write (source port -> uid, pid, is_root, original destination). The original destination is the mock host
+// itself (the proxy connects to the original destination), i.e. an endpoint without access rules.
+
+/// relocatable BPF ELF with one legacy `maps` section entry: audit_map = HASH, key 8 bytes, value 20 bytes
+fn vx_audit_map_elf() -> Vec<u8> {
+    let shstr: &[u8] = b"\0maps\0.symtab\0.strtab\0.shstrtab\0"; // maps=1 .symtab=6 .strtab=14 .shstrtab=22
+    let strtab: &[u8] = b"\0audit_map\0";
+    let mut maps: Vec<u8> = Vec::new();
+    for v in [1u32, 8, 20, 65536, 0, 0, 0] {
+        maps.extend_from_slice(&v.to_le_bytes());
+    }
+    let mut symtab = vec![0u8; 24];
+    symtab.extend_from_slice(&1u32.to_le_bytes()); // st_name
+    symtab.push(0x11); // GLOBAL OBJECT
+    symtab.push(0);
+    symtab.extend_from_slice(&1u16.to_le_bytes()); // section 1
+    symtab.extend_from_slice(&0u64.to_le_bytes());
+    symtab.extend_from_slice(&(maps.len() as u64).to_le_bytes());
+    let mut out = vec![0u8; 64];
+    let mut place = |out: &mut Vec<u8>, data: &[u8]| -> (u64, u64) {
+        while out.len() % 8 != 0 {
+            out.push(0);
+        }
+        let off = out.len() as u64;
+        out.extend_from_slice(data);
+        (off, data.len() as u64)
+    };
+    let (maps_off, maps_len) = place(&mut out, &maps);
+    let (sym_off, sym_len) = place(&mut out, &symtab);
+    let (str_off, str_len) = place(&mut out, strtab);
+    let (shstr_off, shstr_len) = place(&mut out, shstr);
+    while out.len() % 8 != 0 {
+        out.push(0);
+    }
+    let shoff = out.len() as u64;
+    let mut sh = |name: u32, typ: u32, flags: u64, off: u64, size: u64, link: u32, info: u32, align: u64, entsize: u64| {
+        out.extend_from_slice(&name.to_le_bytes());
+        out.extend_from_slice(&typ.to_le_bytes());
+        out.extend_from_slice(&flags.to_le_bytes());
+        out.extend_from_slice(&0u64.to_le_bytes());
+        out.extend_from_slice(&off.to_le_bytes());
+        out.extend_from_slice(&size.to_le_bytes());
+        out.extend_from_slice(&link.to_le_bytes());
+        out.extend_from_slice(&info.to_le_bytes());
+        out.extend_from_slice(&align.to_le_bytes());
+        out.extend_from_slice(&entsize.to_le_bytes());
+    };
+    sh(0, 0, 0, 0, 0, 0, 0, 0, 0);
+    sh(1, 1, 3, maps_off, maps_len, 0, 0, 4, 0);
+    sh(6, 2, 0, sym_off, sym_len, 3, 1, 8, 24);
+    sh(14, 3, 0, str_off, str_len, 0, 0, 1, 0);
+    sh(22, 3, 0, shstr_off, shstr_len, 0, 0, 1, 0);
+    let mut eh: Vec<u8> = vec![0x7f, b'E', b'L', b'F', 2, 1, 1, 0, 0, 0, 0, 0, 0, 0, 0, 0];
+    eh.extend_from_slice(&1u16.to_le_bytes()); // ET_REL
+    eh.extend_from_slice(&247u16.to_le_bytes()); // EM_BPF
+    eh.extend_from_slice(&1u32.to_le_bytes());
+    eh.extend_from_slice(&0u64.to_le_bytes());
+    eh.extend_from_slice(&0u64.to_le_bytes());
+    eh.extend_from_slice(&shoff.to_le_bytes());
+    eh.extend_from_slice(&0u32.to_le_bytes());
+    eh.extend_from_slice(&64u16.to_le_bytes());
+    eh.extend_from_slice(&0u16.to_le_bytes());
+    eh.extend_from_slice(&0u16.to_le_bytes());
+    eh.extend_from_slice(&64u16.to_le_bytes());
+    eh.extend_from_slice(&5u16.to_le_bytes());
+    eh.extend_from_slice(&4u16.to_le_bytes());
+    out[..64].copy_from_slice(&eh);
+    out
+}
+
+pub struct AuditMap {
+    fd: i32,
+    pub uid: u32,
+    pub pid: u32,
+}
+
+impl AuditMap {
+    /// what the cgroup connect4 hook records for a redirected connection
+    pub fn put(&self, source_port: u16, is_root: bool, destination: Ipv4Addr, destination_port: u16) -> bool {
+        #[repr(C)]
+        struct Attr {
+            map_fd: u32,
+            pad: u32,
+            key: u64,
+            value: u64,
+            flags: u64,
+        }
+        let key: [u32; 2] = [6 /* IPPROTO_TCP */, source_port as u32];
+        let value: [u32; 5] = [self.uid, self.pid, is_root as u32, u32::from_ne_bytes(destination.octets()), destination_port.to_be() as u32];
+        let attr = Attr { map_fd: self.fd as u32, pad: 0, key: key.as_ptr() as u64, value: value.as_ptr() as u64, flags: 0 };
+        let r = unsafe { libc::syscall(libc::SYS_bpf, 2 /* BPF_MAP_UPDATE_ELEM */, &attr as *const Attr, std::mem::size_of::<Attr>()) };
+        r == 0
+    }
+}
+
+impl Harness {
+    /// None where BPF maps cannot be created (not privileged, no BPF): the real listener path is skipped then
+    pub fn install_audit_map(&self) -> Option<AuditMap> {
+        use std::os::fd::{AsFd, AsRawFd};
+        if cfg!(target_endian = "big") {
+            return None;
+        }
+        let ebpf = match aya::EbpfLoader::new().load(&vx_audit_map_elf()) {
+            Ok(e) => e,
+            Err(e) => {
+                println!("VXW-NOTE no kernel audit map available ({}): the real listener path is not exercised", e);
+                return None;
+            }
+        };
+        let fd = match ebpf.map("audit_map") {
+            Some(aya::maps::Map::HashMap(d)) => d.fd().as_fd().as_raw_fd(),
+            _ => {
+                println!("VXW-NOTE audit_map not found in the loaded object: the real listener path is not exercised");
+                return None;
+            }
+        };
+        let obj = crate::redirector::BpfObject::new(ebpf);
+        let rs = self.shared.get_redirector_shared_state();
+        if self.rt.block_on(rs.update_bpf_object(Arc::new(StdMutex::new(obj)))).is_err() {
+            return None;
+        }
+        let map = AuditMap { fd, uid: unsafe { libc::getuid() }, pid: std::process::id() };
+        // probe: an attributed request must come back from the mock host
+        let mut c = self.connect_real(&self.ps, Some((&map, true)));
+        c.send(vx_request_bytes("GET", "/vx-probe", &[("Host".to_string(), "127.0.0.1".to_string())], &ReqBody::None));
+        let r = c.recv(false);
+        let (_b, reqs) = self.finish_real(c);
+        if vx_status(&r) != 200 || reqs.len() != 1 {
+            println!("VXW-NOTE the real listener path does not relay an attributed probe request (status {}, {} requests at the host): not exercised", vx_status(&r), reqs.len());
+            return None;
+        }
+        Some(map)
+    }
+
+    /// a client connection handed to the REAL handle_new_tcp_connection; audit = Some((map, is_root)) writes the audit record first
+    pub fn connect_real(&self, ps: &ProxyServer, audit: Option<(&AuditMap, bool)>) -> RawClient {
+        self.connect_real_to(ps, audit.map(|(m, r)| (m, r, Ipv4Addr::LOCALHOST, self.host.port)))
+    }
+
+    /// audit = Some((map, is_root, original destination ip, port)); only the mock host's own address leads to the mock host
+    pub fn connect_real_to(&self, ps: &ProxyServer, audit: Option<(&AuditMap, bool, Ipv4Addr, u16)>) -> RawClient {
+        let s = std::net::TcpStream::connect(self.front_addr).expect("connect to the front listener");
+        let _ = s.set_nodelay(true);
+        let _ = s.set_read_timeout(Some(Duration::from_secs(10)));
+        let (stream, client_addr) = self.rt.block_on(self.front.accept()).expect("accept");
+        if let Some((map, is_root, ip, port)) = audit {
+            if map.put(client_addr.port(), is_root, ip, port) && ip == Ipv4Addr::LOCALHOST && port == self.host.port {
+                self.upstreams.set(self.upstreams.get() + 1);
+            }
+        }
+        self.rt.block_on(ps.handle_new_tcp_connection(stream, client_addr));
+        RawClient { s, buf: Vec::new(), writers: Vec::new() }
+    }
+
+    pub fn finish_real(&self, client: RawClient) -> (usize, Vec<RecReq>) {
+        client.close();
+        self.settle()
+    }
+
+    /// one request on its own connection through the real listener path
+    pub fn one_real(&self, ps: &ProxyServer, audit: Option<(&AuditMap, bool)>, wire: Vec<u8>, head_request: bool) -> (Result<ClientResp, String>, usize, Vec<RecReq>) {
+        let mut c = self.connect_real(ps, audit);
+        c.send(wire);
+        let r = c.recv(head_request);
+        let (b, reqs) = self.finish_real(c);
         (r, b, reqs)
     }
 }
